@@ -8,6 +8,10 @@ A failing obligation means the code moved away from the model (GoZero/C06/Model.
                  case splits were written against
   …Facts         the return statements and the property-carrying calls with their arguments (which key, which
                  expiry, which delay, what is returned on which path) of every function on the modelled path
+  round 2        cache.New (one node → cacheNode, several → cacheCluster over a consistent hash), the six
+                 cacheCluster operations (dispatch by key; DelCtx: grouping assignment, one node DelCtx per group),
+                 DoEx/createCall/makeCall returns (the shared `c.val`), sqlc.NewConn/GetCache/SetCache*, and the
+                 monc.Model call sites (FindOne through TakeCtx; each of the 9 writes followed by DelCache)
 -/
 import GoZero.Extracted.C06
 import GoZero.C06.Spec
